@@ -289,6 +289,53 @@ func (c *Conn) takeReq(id uint32) bool {
 	return ok
 }
 
+// queuedLen is how many requests are waiting for an answer.
+func (c *Conn) queuedLen() int {
+	c.reqLck.Lock()
+	n := len(c.reqQueued)
+	c.reqLck.Unlock()
+
+	return n
+}
+
+// ErrNotProcessed is what a request ends with when the server has said it did
+// not, and will not, process it: its stream was above the last-stream-id of a
+// GOAWAY. Such a request can be sent again.
+var ErrNotProcessed = errors.New("the server went away without processing the request")
+
+// failAbove ends every request whose stream is above last, and reports how
+// many there were.
+func (c *Conn) failAbove(last uint32) int {
+	c.reqLck.Lock()
+
+	var (
+		ids  []uint32
+		ctxs []*Ctx
+	)
+
+	for id, ctx := range c.reqQueued {
+		if id > last {
+			ids = append(ids, id)
+			ctxs = append(ctxs, ctx)
+
+			delete(c.reqQueued, id)
+		}
+	}
+
+	c.reqLck.Unlock()
+
+	for i, ctx := range ctxs {
+		atomic.AddInt32(&c.openStreams, -1)
+
+		c.deletePending(ids[i])
+
+		ctx.markFinished()
+		ctx.resolve(ErrNotProcessed)
+	}
+
+	return len(ctxs)
+}
+
 // loadReq returns the request waiting on a stream, if there is one.
 func (c *Conn) loadReq(id uint32) (*Ctx, bool) {
 	c.reqLck.Lock()
@@ -865,7 +912,11 @@ func (c *Conn) dispatch(fr *FrameHeader) bool {
 		return true
 	}
 
-	return c.state == connStateClosed && fr.Stream() == c.closeRef
+	// After a GOAWAY the connection is done once the last request the server
+	// still owed an answer to has got it. Stopping at the first frame on the
+	// last-stream-id stream cut that stream, and the ones below it that were
+	// still receiving, off half way.
+	return c.state == connStateClosed && c.queuedLen() == 0
 }
 
 func (c *Conn) writeRequest(ctx *Ctx) error {
@@ -1365,11 +1416,19 @@ loop:
 			// connection, so the client must move to a fresh one.
 			atomic.StoreUint32(&c.goAway, 1)
 
-			if ga.stream == 0 {
+			// Streams above last-stream-id were not processed and never will
+			// be (RFC 7540 6.8): their requests are over now, and safe to send
+			// again elsewhere. Leaving them queued made their callers wait for
+			// the response timeout.
+			failed := c.failAbove(ga.stream)
+
+			// With last-stream-id 0 nothing is left to wait for, and neither is
+			// there when every request we had in flight has just been disclaimed.
+			if ga.stream == 0 || (failed > 0 && c.queuedLen() == 0) {
 				_ = c.c.Close()
 				err = ga
 			} else {
-				// wait for the streams to complete
+				// wait for the streams at or below it to complete
 				c.closeRef = ga.stream
 				c.state = connStateClosed
 			}
